@@ -28,7 +28,9 @@ class ImmutableDict(Mapping, Generic[KT, VT]):
         data: Union[Iterable[Tuple[KT, VT]], ImmutableDict[KT, VT], Dict[KT, VT]] = {},
     ):
         if isinstance(data, dict):
-            self._data = data
+            # do not keep a reference to the caller's dictionary (nor to the mutable
+            # containers inside it): later changes to it must not show through
+            self._data = copy.deepcopy(data)
         elif isinstance(data, ImmutableDict):
             self._data = data._data
         else:
